@@ -187,6 +187,16 @@ func (cl *Loader) load(file string) (config map[string]interface{}, err error) {
 				return nil, fmt.Errorf("load import error: %v", err)
 			}
 
+			// yaml.v2 yields map[interface{}]interface{} below the top level, JSON and TOML yield
+			// map[string]interface{}; merging the two kinds (a JSON or TOML file importing a
+			// YAML file) made mergo panic
+			for k, v := range config {
+				config[k] = stringifyKeys(v)
+			}
+			for k, v := range raw {
+				raw[k] = stringifyKeys(v)
+			}
+
 			err = mergo.Merge(&config, raw, mergo.WithOverride, mergo.WithAppendSlice, mergo.WithTypeCheck)
 			if err != nil {
 				return nil, err
@@ -297,6 +307,29 @@ func (cl *Loader) unmarshalData(data []byte, ext string) (map[string]interface{}
 	}
 
 	return cm, nil
+}
+
+func stringifyKeys(v interface{}) interface{} {
+	switch x := v.(type) {
+	case map[interface{}]interface{}:
+		m := make(map[string]interface{}, len(x))
+		for k, val := range x {
+			m[fmt.Sprint(k)] = stringifyKeys(val)
+		}
+		return m
+	case map[string]interface{}:
+		for k, val := range x {
+			x[k] = stringifyKeys(val)
+		}
+		return x
+	case []interface{}:
+		for i, val := range x {
+			x[i] = stringifyKeys(val)
+		}
+		return x
+	}
+
+	return v
 }
 
 func (cl *Loader) decode(cm map[string]interface{}) (*configDefinition, error) {
